@@ -134,6 +134,9 @@ func Discover(w *world.W) []KindInfo {
 type Consts struct {
 	MaxApplied int      `json:"MaxApplied"`
 	Kind       []string `json:"Kind"`
+	// AddrCfg "sdk": run without fx-core's 20-byte address verifier (SDK default configuration, as the repository's
+	// keeper tests do), so that longer look-alike addresses reach the handlers instead of failing stateless validation
+	AddrCfg string `json:"AddrCfg"`
 }
 
 type Adapter struct {
@@ -160,6 +163,9 @@ func must(err error) {
 }
 
 func New(t *testing.T, c Consts) *Adapter {
+	if c.AddrCfg == "sdk" {
+		os.Setenv("VERIF_ADDR_CFG", "sdk")
+	}
 	w := world.New(t, 1)
 	a := &Adapter{W: w, C: c, Kinds: map[string]KindInfo{}, K: c.MaxApplied + 1, gov: authtypes.NewModuleAddress("gov"),
 		baseABT: map[string]uint64{}, baseOracle: map[string]int{}}
@@ -238,7 +244,11 @@ func (a *Adapter) authority(class string) string {
 	case "gov-hex":
 		return common.BytesToAddress(a.gov).Hex()
 	case "gov-otherprefix":
-		s, err := bech32.ConvertAndEncode("cosmos", a.gov)
+		other := "cosmos"
+		if sdk.GetConfig().GetBech32AccountAddrPrefix() == other {
+			other = "fx"
+		}
+		s, err := bech32.ConvertAndEncode(other, a.gov)
 		must(err)
 		return s
 	case "gov-suffix-21": // one leading byte + the gov bytes: a different (21-byte) account, valid bech32 with the chain prefix
